@@ -1,4 +1,4 @@
-(* Refinement check for RCU lists: reads blocks "T <ops>" / "U" (updater store issued) / "F" (oldest buffered store becomes visible) /
+(* Refinement check for RCU lists: reads blocks "T <ops>" / "U loc val" (updater store of val to the next field of loc issued) / "F" (oldest buffered store becomes visible) /
    "R r loc val" (reader r loaded val from the next field of loc) / ".", runs the extracted RcuList.exec on the same choices and checks that
    every reader load is the load the model's cursor performs and returns the model's value; at "." the model's memory chain is printed. *)
 open Rculist_model
@@ -30,6 +30,15 @@ let () =
      | ["."] -> finish ()
      | "T" :: ops -> st := init (List.map parse_op ops)
      | ["U"] -> if !bad = None then (st := exec UStep !st; incr n)
+     | ["U"; loc; v] -> if !bad = None then begin      (* the store the implementation issued must be the store the model issues at this point *)
+         let loc = int_of_string loc and v = int_of_string v in
+         let before = List.length !st.buf in
+         st := exec UStep !st; incr n;
+         (match List.rev !st.buf with
+          | (a, w) :: _ when List.length !st.buf = before + 1 ->
+              if int_of_n a <> loc || int_of_n w <> v then
+                bad := Some (Printf.sprintf "action %d: updater stores %d to the next field of %d, the model's next store is %d to the next field of %d" !n v loc (int_of_n w) (int_of_n a))
+          | _ -> bad := Some (Printf.sprintf "action %d: updater stores %d to the next field of %d, the model issues no store here" !n v loc)) end
      | ["F"] -> if !bad = None then (st := exec UFlush !st; incr n)
      | ["R"; r; loc; v] -> if !bad = None then begin
          let r = nat_of_int (int_of_string r) and loc = int_of_string loc and v = int_of_string v in
